@@ -62,6 +62,15 @@ def layout_refusals(cx):
     for inst, test, enabling in specs:
         want = sym.norm(test)
         gs = [(g, p) for g, p in guards(fn, exc=['NotImplementedError']) if sym.norm(g.test) == want and not p]
+        if enabling is not None and not gs:
+            # one test `enabling and refused-condition` (the canonical spelling of the nested form): its passing
+            # outcome covers "not enabled" as well, so plain dominance of the decode sites is what is needed
+            wm = sym.norm('(%s) and (%s)' % (enabling, test))
+            gm = [(g, p) for g, p in guards(fn, exc=['NotImplementedError']) if sym.norm(g.test) == wm and not p]
+            ok = len(gm) == 1 and all(guard_dominates(fn, gm[0][0], False, s_) for s_ in sites)
+            fn.ob('GUARD', inst + ' (NotImplementedError) before any decoding', ok, gm[0][0] if gm else fn.ast,
+                  detail='' if ok else 'no dominating refusal of the form `%s`' % test, key=inst)
+            continue
         ok = len(gs) == 1
         if ok:
             g = gs[0][0]
